@@ -631,7 +631,42 @@ class Normalizer:
             self._known_scanned = True
             for h in self.known_source():
                 self.learn(h)
-        return self.known.get(ck)
+        return self.eval_cond(ck)
+
+    def eval_cond(self, ck):
+        """three-valued truth of a canonical condition from the recorded atomic ones"""
+        if ck is True or ck is False:
+            return ck
+        v = self.known.get(ck)
+        if v is not None or not isinstance(ck, tuple):
+            return v
+        if ck[0] == "not":
+            r = self.eval_cond(ck[1])
+            return None if r is None else (not r)
+        if ck[0] in ("and", "or"):
+            vals = [self.eval_cond(x) for x in ck[1]]
+            if ck[0] == "and":
+                if any(x is False for x in vals):
+                    return False
+                return True if all(x is True for x in vals) else None
+            if any(x is True for x in vals):
+                return True
+            return False if all(x is False for x in vals) else None
+        return None
+
+    def undecided_atom(self, ck):
+        """an atomic (ge0 / eq0) sub-condition of ck whose truth is not recorded, or None"""
+        if ck is True or ck is False or not isinstance(ck, tuple):
+            return None
+        if ck[0] == "not":
+            return self.undecided_atom(ck[1])
+        if ck[0] in ("and", "or"):
+            for x in ck[1]:
+                r = self.undecided_atom(x)
+                if r is not None:
+                    return r
+            return None
+        return ck if self.known.get(ck) is None else None
 
     def learn(self, h, val=True):
         try:
